@@ -3,7 +3,7 @@
    cfg.py with the four pending/C20-*.diff patches applied); declarative side:
    Cargo/Spec.v.  V s is SemVer(s)._v. *)
 From MV Require Import Base.Strs Cargo.SemVer Cargo.Req Cargo.Cfg Cargo.Spec
-  Cargo.SemVerProofs Cargo.ReqProofs Cargo.ParseProofs Cargo.ReqStrProofs Cargo.CfgProofs.
+  Cargo.SemVerProofs Cargo.ReqProofs Cargo.ParseProofs Cargo.ReqStrProofs Cargo.CfgProofs Cargo.PreProofs Cargo.GlueProofs Cargo.ApiProofs.
 
 (* "For every Cargo requirement (bare/caret, tilde, wildcard, =, <, <=, >, >=, comma
    lists, partial versions) and every release version, acceptance equals the rule of
@@ -158,3 +158,95 @@ Theorem C20_cfg_unbalanced_quote_rejected : forall raw d,
   quotes_odd (slice_4_m1 raw) false = true -> eval_cfg raw d = MesonErr.
 Proof. exact odd_quotes_rejected. Qed.
 Print Assumptions C20_cfg_unbalanced_quote_rejected.
+
+(* ---- extension: pre-release versions against requirements that name a pre-release ---- *)
+(* for EVERY printed requirement and EVERY printed version (release or pre-release)
+   cargo_parse(req)(version) is: every comparator's section-11 bounds hold, and a
+   pre-release needs some comparator that names a pre-release (Spec.meson_matches) *)
+Theorem C20_requirement_all_versions_partial : forall ol ot l pv,
+  all_space ol = true -> all_space ot = true -> forallb wf_piece l = true -> edges_ok l ->
+  wf_pversion pv = true ->
+  req_matches (ol ++ pr_req l ++ ot) (pr_version pv) = meson_matches (comps_of l) (version_of pv).
+Proof. exact PreProofs.req_matches_all. Qed.
+Print Assumptions C20_requirement_all_versions_partial.
+Theorem C20_constraints_all_versions : forall c v, wf_comparator c = true ->
+  holds (vvec v) (constraints_of (rop_of (c_op c)) (csem c)) = meson_comp c v.
+Proof. exact PreProofs.constraints_all_versions. Qed.
+Print Assumptions C20_constraints_all_versions.
+(* on releases those bounds are Cargo's rule *)
+Theorem C20_bounds_are_cargo_rule_on_releases : forall c v, wf_comparator c = true -> vpre v = [] ->
+  meson_comp c v = matches_comp c v.
+Proof. exact PreProofs.meson_comp_release. Qed.
+Print Assumptions C20_bounds_are_cargo_rule_on_releases.
+(* "acceptance equals Cargo's matcher" extended to pre-release versions is FALSE in both
+   directions: meson's gate is weaker than Cargo's same-major.minor.patch rule ... *)
+Theorem C20_prerelease_cargo_refuted_meson_accepts : exists req v,
+  forallb wf_comparator req = true /\ forallb is_full req = true /\
+  meson_matches req v = true /\ cargo_matches req v = false /\
+  req_matches (s2l ">=1.0.0-alpha") (s2l "2.0.0-beta") = true.
+Proof. exact PreProofs.meson_not_cargo_on_prerelease. Qed.
+Print Assumptions C20_prerelease_cargo_refuted_meson_accepts.
+(* ... and Cargo's partial caret/tilde ignore the version's pre-release where meson's
+   bounds do not *)
+Theorem C20_prerelease_cargo_refuted_cargo_accepts : exists req v,
+  forallb wf_comparator req = true /\
+  cargo_matches req v = true /\ meson_matches req v = false /\
+  req_matches (s2l "^1.2, >=1.2.0-alpha") (s2l "1.2.0-alpha") = false.
+Proof. exact PreProofs.cargo_not_meson_on_prerelease. Qed.
+Print Assumptions C20_prerelease_cargo_refuted_cargo_accepts.
+(* the strongest true relation: with comparators that spell out major.minor.patch,
+   every version Cargo accepts (release or pre-release) is accepted by meson *)
+Theorem C20_prerelease_cargo_partial : forall req v,
+  forallb wf_comparator req = true -> forallb is_full req = true ->
+  cargo_matches req v = true -> meson_matches req v = true.
+Proof. exact PreProofs.cargo_implies_meson. Qed.
+Print Assumptions C20_prerelease_cargo_partial.
+
+(* ---- extension: the callers (manifest.py:735-740, interpreter.py:520-530, 701-719) ---- *)
+(* CargoLock._versions sorts newest first (a permutation of the lock entries) and
+   Interpreter._resolve_package returns the most recent entry the requirement accepts,
+   None exactly when no entry is accepted — for all requirement and version strings *)
+Theorem C20_lock_versions_sorted : forall l,
+  Permutation.Permutation (sort_desc l) l /\
+  Sorted.StronglySorted (fun a b => bop_apply BLt (V a) (V b) = false) (sort_desc l).
+Proof. intro l. split; [apply GlueProofs.sort_desc_perm | apply GlueProofs.sort_desc_sorted]. Qed.
+Print Assumptions C20_lock_versions_sorted.
+Theorem C20_resolve_most_recent : forall req l v, resolve_package req l = Some v ->
+  In v l /\ req_matches req v = true /\
+  forall w, In w l -> req_matches req w = true -> bop_apply BLt (V v) (V w) = false.
+Proof. exact GlueProofs.resolve_most_recent. Qed.
+Print Assumptions C20_resolve_most_recent.
+Theorem C20_resolve_none : forall req l, resolve_package req l = None ->
+  forall w, In w l -> req_matches req w = false.
+Proof. exact GlueProofs.resolve_none. Qed.
+Print Assumptions C20_resolve_none.
+(* _get_cfgs builds a dict: eval_cfg sees the LAST value rustc printed for a key *)
+Theorem C20_cfg_dict_keeps_last : forall k ps, lookup k (dict_of ps) = GlueProofs.last_value k ps None.
+Proof. exact GlueProofs.lookup_dict_of. Qed.
+Print Assumptions C20_cfg_dict_keeps_last.
+(* "name = value holds iff rustc printed that pair" is FALSE for the code as it is
+   (target_feature="sse" followed by target_feature="sse2"): finding C20:cfg-multivalued-key *)
+Theorem C20_cfg_pairs_refuted : exists lines n v,
+  In (n, v) (map split_cfg lines) /\
+  match get_cfgs lines [] with Some d => eval_ir (Equal n v) d | None => true end = false.
+Proof. exact GlueProofs.cfg_pair_test_refuted. Qed.
+Print Assumptions C20_cfg_pairs_refuted.
+(* true when the key is single-valued *)
+Theorem C20_cfg_pairs_partial : forall n v ps,
+  (forall v', In (n, v') ps -> v' = v) -> In (n, v) ps -> eval_ir (Equal n v) (dict_of ps) = true.
+Proof. exact GlueProofs.cfg_pair_test_partial. Qed.
+Print Assumptions C20_cfg_pairs_partial.
+
+(* ---- extension: version.api (names of the generated subprojects) ---- *)
+(* x.y.z -> x, 0.x.y -> 0.x, 0.0.x -> 0 for the text of every comparator ... *)
+Theorem C20_api_of_partial : forall p, wf_pcomp p = true -> api_of (pr_partial p) = ApiOk (ApiProofs.api_class p).
+Proof. exact ApiProofs.api_of_partial. Qed.
+Print Assumptions C20_api_of_partial.
+(* ... and for every printed requirement: the common class of its lower-bound
+   comparators, '' without one, MesonException when they disagree *)
+Theorem C20_api_printed : forall ol ot l,
+  all_space ol = true -> all_space ot = true -> forallb wf_piece l = true -> edges_ok l ->
+  api (ol ++ pr_req l ++ ot) =
+  match ApiProofs.classes l [] with [] => ApiOk [] | [a] => ApiOk a | _ => ApiMesonErr end.
+Proof. exact ApiProofs.api_printed. Qed.
+Print Assumptions C20_api_printed.
